@@ -61,6 +61,16 @@ fn run_direct(c: &DirectCase) -> Result<u64, String> {
             } else {
                 StreamElement::Item(id)
             };
+            // batch flushes and watermarks may arrive at any point and never produce or discard
+            // anything
+            if (id + c.n as u64) % 3 == 1 {
+                if mgr.process(StreamElement::FlushBatch).is_some() {
+                    return Err(format!("iteration {it}: FlushBatch before element #{i} produced a window"));
+                }
+                if c.timestamped && mgr.process(StreamElement::Watermark(id as i64 * 3 - 1)).is_some() {
+                    return Err(format!("iteration {it}: a watermark before element #{i} produced a count window"));
+                }
+            }
             let out: Option<WindowResult<Vec<u64>>> = mgr.process(el);
             let want: Option<Vec<u64>> =
                 per[i].map(|(a, b)| (a..b).map(|x| base + x as u64).collect());
